@@ -50,6 +50,7 @@ func copySkeletonRules(w *World, r *Report, a *cmdAnchors, f *ssa.Function, srcF
 	}
 	ruleOneClock(w, r, rOne, a, sk)
 	ruleUntilDefault(w, r, rOne, f, []*ssa.Function{a.readWhisperFile, a.sumWhisperFile})
+	ruleParseWindowCheck(w, r, rOne, ownerTypeName(f))
 	var upd *ssa.Call
 	for _, c := range callsTo(f, a.update) {
 		if c.Parent() == f {
@@ -235,6 +236,7 @@ func rulesC09(w *World, r *Report) {
 			ruleVerdict(w, r, "C09.R2", a, sk, true)
 			ruleOneClock(w, r, "C08.R3", a, sk)
 			ruleUntilDefault(w, r, "C08.R3", f, []*ssa.Function{a.readWhisperFile, a.sumWhisperFile})
+			ruleParseWindowCheck(w, r, "C08.R3", "DiffCommand")
 			ruleWrapSides(w, r, "C09.R4", a, sk)
 		}
 	}
@@ -284,6 +286,7 @@ func rulesC11(w *World, r *Report) {
 			ruleVerdict(w, r, "C11.R3", a, sk, false)
 			ruleOneClock(w, r, "C11.R3", a, sk)
 			ruleUntilDefault(w, r, "C11.R3", sd, []*ssa.Function{a.readWhisperFile, a.sumWhisperFile})
+			ruleParseWindowCheck(w, r, "C11.R3", "SumDiffCommand")
 			ruleWrapSides(w, r, "C11.R3", a, sk)
 		}
 		ruleSumArgs(w, r, "C11.R2", a, sd)
@@ -1126,6 +1129,36 @@ func rulesC10(w *World, r *Report) {
 			}
 		}
 	}
+	// the list of sums is indexed by archive id, like the lists it is built from
+	if sll := fn(w.Cmd, "sumTimeSeriesListList"); sll != nil && sf != nil {
+		bad := ""
+		n := 0
+		for _, c := range callsTo(sll, sf) {
+			cv := c
+			if len(c.Common().Args) != 2 {
+				continue
+			}
+			n++
+			okSt := false
+			for _, ref := range *cv.Referrers() {
+				st, isSt := ref.(*ssa.Store)
+				if !isSt || st.Val != ssa.Value(cv) {
+					continue
+				}
+				ia, isIA := st.Addr.(*ssa.IndexAddr)
+				if !isIA || ia.Index != c.Common().Args[1] {
+					continue
+				}
+				if mk, isMk := ia.X.(*ssa.MakeSlice); isMk && newExprCtx(w).expr(mk.Len) == "len(p0[0])" {
+					okSt = true
+				}
+			}
+			if !okSt && bad == "" {
+				bad = "the sum of archive k computed at " + w.instrPos(c) + " is not stored at index k of a list as long as the files' lists"
+			}
+		}
+		r.Check(bad == "" && n > 0, "C10.R4", "sumTimeSeriesListList:indexed-by-archive", w.pos(sll.Pos()), "result[k] = sum over files of archive k, for a list of len(files[0]) entries", "sumTimeSeriesListList: "+bad+": every consumer reads the index as the archive id, so sums appear under another archive (or the handler indexes past the list)")
+	}
 	r.Rule("C10.R6", "derives-from: the sum command reads sumWhisperFile(SrcBase, item, SrcPattern, ArchiveID, From, until, now) for every item of globItems(SrcBase, ItemPattern), until being Until or (when 0) the clock reading, and prints the header and the PointsList of exactly what it read", 3)
 	if se := need(w, r, "C10.R6", w.Cmd, "SumCommand.execute"); se != nil {
 		ex := newExprCtx(w)
@@ -1150,6 +1183,7 @@ func rulesC10(w *World, r *Report) {
 		ruleLoopGoesOn(w, r, "C10.R6", "SumCommand.execute:every-item", firstLoopCall(se, a.sumWhisperFile), "every matched item is summed and printed")
 		if okS {
 			ruleUntilDefault(w, r, "C10.R6", se, []*ssa.Function{a.sumWhisperFile})
+			ruleParseWindowCheck(w, r, "C10.R6", "SumCommand")
 			pf := callsTo(se, fn(w.Cmd, "printFileData"))
 			okP := len(pf) == 1
 			if okP {
